@@ -278,12 +278,17 @@ func normalForm(f *sfnt.Font) *sfnt.Font {
 	if f.IsSerif {
 		n.IsScript = false
 	}
-	if f.CapHeight == 0 {
+	// The OS/2 reader takes heights that are not positive as "not set" (the
+	// specification gives 0 that meaning and a negative cap or x height
+	// describes nothing); unset heights are measured on 'H' and 'x'.
+	if f.CapHeight <= 0 {
+		n.CapHeight = 0
 		if gid := bestLookup(f, 'H'); gid != 0 {
 			n.CapHeight = glyphTop(f, gid)
 		}
 	}
-	if f.XHeight == 0 {
+	if f.XHeight <= 0 {
+		n.XHeight = 0
 		if gid := bestLookup(f, 'x'); gid != 0 {
 			n.XHeight = glyphTop(f, gid)
 		}
